@@ -6,18 +6,9 @@
 From Coq Require Import String Ascii.
 From Coq Require Import NArith ZArith List Bool.
 From PyIpmi Require Import Lib.Res Lib.Bytes Lib.Prog Model.Codec Model.ApiShape Model.ApiSem Model.Bmc
-  Gen.Layouts Gen.ApiContent.
+  Gen.Layouts Gen.ApiContent Model.ApiRun.
 Import ListNotations.
 Open Scope N_scope.
-
-Definition find_mi (n : string) : option msginfo :=
-  match find (fun m => String.eqb (m_name m) n) registry with
-  | Some m => Some (mkMi (m_netfn m) (m_cmd m) (m_lun m) (m_layout m))
-  | None => None
-  end.
-
-Definition find_cop (n : string) : option cop :=
-  find (fun o => String.eqb (c_name o) n) api_content.
 
 (* results are compared up to the order of attributes *)
 Fixpoint pv_sim (a b : pv) {struct a} : bool :=
@@ -38,8 +29,6 @@ Fixpoint pv_sim (a b : pv) {struct a} : bool :=
          end) f
   | _, _ => pv_eqb a b
   end.
-
-Definition run_cop (o : cop) (args : list (string * pv)) : prog pv := run_op api_tables find_mi o args.
 
 (* exs: recorded (request, reply); expected: Ok value | Err e *)
 Definition chk_op (name : string) (args : list (string * pv)) (exs : list (request * reply))
@@ -73,5 +62,3 @@ Fixpoint bmc_replay (s : store) (exs : list (request * reply)) : bool :=
 
 Definition chk_bmc (init : store) (exs : list (request * reply)) : bool := bmc_replay init exs.
 
-Definition is_supported (name : string) : bool :=
-  match find_cop name with Some o => supported o | None => false end.
